@@ -1,5 +1,16 @@
-import re
+import re, os
 F = 'xenium/harris_michael_list_based_set.hpp'
+def _inc_has_loop():
+    # operator++ before the F11 repair has no loop; the repaired text retries the fast path in a while loop, which the INT variant must cut.
+    # The unit follows the text it finds (the extraction itself stays mechanical and must-fire counted for either shape).
+    try:
+        from xvlib import lower as _L, engine as _E
+        src = _L.strip_comments(_L.read_source(os.path.join(_E.REPO, F)))
+        f = _L.extract_function(src, r'iterator::operator\+\+\(\) -> iterator&')
+        return bool(re.search(r'\b(while|for)\b', f['body']))
+    except Exception:
+        return False
+INC_LOOP = _inc_has_loop()
 P = r'harris_michael_list_based_set<Key, Policies\.\.\.>::'
 
 # ---------------------------------------------------------------------------------------------------------------
@@ -73,6 +84,16 @@ def dtors(s, lw):
         inner = re.sub(r'\breturn\b([^;]*);', ret, inner)
         s = s[:m.end()] + inner + ' ' + call + '\n' + s[i:]
         lw.fire('dtor')
+    return s
+
+def pre_rules(s, lw):
+    """py_pre stage: guard value semantics made explicit, then the function's own pre_subst (so that by-value results are already
+    out-parameter writes), then destructor calls; all before the generic rules and before loops are cut"""
+    s = guard_rules(s, lw)
+    s = lw.subst(s, 'pre_subst')
+    return dtors(s, lw)
+
+def xassert_rule(s, lw):
     # assert() is compiled out in release builds and never dereferences for the algorithm: address computations inside
     # XV_XASSERT(...) use the unchecked address macro
     out = []; i = 0
@@ -99,14 +120,14 @@ def FIND_INT(l, e):
 
 def retry_cut(s, lw):
     """INT variant of find: the label `retry` is a second cut point (arrival from the function entry = base case, every `goto retry` = step case)"""
-    s = dtors(s, lw)
+    s = xassert_rule(s, lw)
     s, n = re.subn(r'\bgoto retry;', '{ XV_LOOP_STEP(RETRY); XV_CUT_END(); }', s)
     lw.fire('retry_goto', n)
     s, n = re.subn(r'(?m)^retry:', 'retry: ; XV_LOOP_BASE(RETRY); XV_LOOP_HAVOC(RETRY); XV_LOOP_ASSUME(RETRY);', s)
     lw.fire('retry_label', n)
     return s
 
-COMMON = dict(py_pre=guard_rules, py_post=dtors,
+COMMON = dict(py_pre=pre_rules, py_post=xassert_rule,
               methods={'mark': {'info.cur': 'G_MARK', 'pos.info.cur': 'G_MARK', '*': 'MP_mark'},
                        'get': {'info.cur': 'G_GET', 'info.save': 'G_GET', 'pos.info.cur': 'G_GET', '*': 'MP_get'},
                        'reset': 'G_RESET', 'reclaim': 'G_RECLAIM', 'acquire': 'G_ACQUIRE', 'acquire_if_equal': 'G_ACQUIRE_IF_EQUAL',
@@ -115,6 +136,42 @@ COMMON = dict(py_pre=guard_rules, py_post=dtors,
               deref={'info.cur': 'GDEREF', 'info.save': 'GDEREF', 'pos.info.cur': 'GDEREF', 'n': 'NDEREF'},
               self_calls={'find': 'HMS_FIND'})
 RET_IT_INFO = (r'return \{iterator\(\*this, std::move\(info\)\), (\w+)\};', r'{ IT_FROM_INFO(ret, self, info); return \1; }', 'ret_pair')
+
+def _runs():
+    out = []
+    INC = ['hms_iter_inc.0:1'] if INC_LOOP else []
+    def seq(l, tiers, sfx):
+        note = 'any well-formed list of <= %d ever-inserted nodes (+1 slot for operator new), symbolic keys, arbitrary delete marks, unlinked marked nodes; all loops unwound completely (unwinding assertions on)' % l
+        base = dict(cls='shape-complete', defs={'L': l}, unwind=l + 3, tiers=tiers, note=note)
+        F_ = FIND_SEQ(l)
+        out.extend([
+          dict(base, id='find' + sfx, entry='h_find', unwindset=F_),
+          dict(base, id='contains' + sfx, entry='h_contains', unwindset=F_),
+          dict(base, id='find_key' + sfx, entry='h_find_key', unwindset=F_),
+          dict(base, id='begin' + sfx, entry='h_begin'),
+          dict(base, id='emplace_or_get' + sfx, entry='h_emplace_or_get', unwindset=F_ + ['hms_emplace_or_get.0:1']),
+          dict(base, id='emplace' + sfx, entry='h_emplace', unwindset=F_ + ['hms_emplace_or_get.0:1']),
+          dict(base, id='erase' + sfx, entry='h_erase', unwindset=F_ + ['hms_erase.0:1']),
+          dict(base, id='erase_twice' + sfx, entry='h_erase', unwindset=FIND_SEQ(max(l - 1, 2)) + ['hms_erase.0:1'], unwind=max(l - 1, 2) + 3, defs={'L': max(l - 1, 2), 'SECOND_ERASE': 1}),
+          dict(base, id='erase_it' + sfx, entry='h_erase_it', unwindset=F_ + ['hms_erase_it.0:2']),
+          dict(base, id='iter_inc' + sfx, entry='h_iter_inc', unwindset=F_ + INC),
+          dict(base, id='iter_copy' + sfx, entry='h_iter_copy', unwindset=F_ + INC),
+        ])
+    def inter(l, tiers, sfx):
+        base = dict(mode='INT', cls='shape-complete', defs={'L': l}, unwind=l + 3, tiers=tiers)
+        n1 = 'unbounded interference: before every atomic access other threads take any number of legal steps (env.h); every retry loop is cut by an invariant; L only bounds the list the invariant checker walks'
+        n2 = n1 + '; find replaced by its INT contract (find_ensures, proved on the real text by run find_int)'
+        out.extend([
+          dict(base, id='find_int' + sfx, entry='h_find_int', note=n1 + '; cut points RETRY (label) and FINDLOOP (for loop)'),
+          dict(base, id='emplace_int' + sfx, entry='h_emplace_int', note=n2 + '; cut point EMPL'),
+          dict(base, id='erase_int' + sfx, entry='h_erase_int', note=n2 + '; cut point ERASE'),
+          dict(base, id='erase_it_int' + sfx, entry='h_erase_it_int', note=n2 + '; cut point ERIT'),
+          dict(base, id='iter_inc_int' + sfx, entry='h_iter_inc_int', note=n2 + ('; cut point INC' if INC_LOOP else '')),
+        ])
+    seq(3, ['quick'], ''); inter(3, ['quick', 'thorough'], '')
+    seq(5, ['thorough'], '_L5'); inter(5, ['thorough'], '_L5')
+    return out
+RUNS = _runs()
 
 UNIT = dict(
   title='harris_michael_list_based_set: find / contains / emplace(_or_get) / erase(key) / erase(iterator) / iterator ++, begin, end (C08, C09)',
@@ -184,7 +241,7 @@ UNIT = dict(
     dict(COMMON, id='iter_inc', file=F, sig=r'auto ' + P + r'iterator::operator\+\+\(\) -> iterator&',
          c_sig='static void hms_iter_inc(struct iter* self)', guards=['info.cur', 'info.save', 'tmp_guard'], members=['info', 'list'],
          pre_subst=[(r'return \*this;', 'return;', 'ret_this')],
-         must_fire={'A_LOAD': 1, 'method:acquire_if_equal': 1, 'method:find': 1, 'guard:default_ctor': 1, 'guard:move_assign': 2, 'subst:ret_this': 1, 'dtor': 1, 'dtor_at_return': 1}),
+         must_fire={'A_LOAD': 2 if INC_LOOP else 1, 'method:acquire_if_equal': 1, 'method:find': 1, 'guard:default_ctor': 1, 'guard:move_assign': 2, 'subst:ret_this': 1, 'dtor': 1, 'dtor_at_return': 1}),
     # ---- the same source texts once more, with the retry loops cut by invariants (used by the INT runs only)
     dict(COMMON, cut_loops={0: 'FINDLOOP'}, py_post=retry_cut, id='find_cut', file=F, sig=r'bool ' + P + r'find\(const Key& key, find_info& info, backoff& backoff\)',
          c_sig='static _Bool hms_find_cut(struct hms* self, hkey key, struct find_info* info_p, int* backoff_p)', ret_type='_Bool',
@@ -211,25 +268,65 @@ UNIT = dict(
                     (r'return pos;', r'{ IT_MOVE_CTOR(ret, pos); return; }', 'ret_pos')],
          must_fire={'self_call:find': 1, 'A_LOAD': 1, 'A_CASW': 2, 'method:reclaim': 1, 'guard:ptr_ctor': 1, 'guard:to_marked_ptr': 1, 'guard:move_assign': 1,
                     'subst:guard_to_marked_ptr': 1, 'subst:ret_pos': 1, 'call:marked_ptr': 1, 'guard:backoff_call': 1, 'method:reset': 1, 'dtor': 1, 'dtor_at_return': 1, 'cut_loop': 1}),
+    dict(COMMON, id='iter_inc_i', cut_loops=({0: 'INC'} if INC_LOOP else {}), file=F, sig=r'auto ' + P + r'iterator::operator\+\+\(\) -> iterator&',
+         c_sig='static void hms_iter_inc_i(struct iter* self)', guards=['info.cur', 'info.save', 'tmp_guard'], members=['info', 'list'],
+         pre_subst=[(r'return \*this;', 'return;', 'ret_this')],
+         must_fire={'A_LOAD': 2 if INC_LOOP else 1, 'method:acquire_if_equal': 1, 'method:find': 1, 'guard:default_ctor': 1, 'guard:move_assign': 2, 'subst:ret_this': 1, 'dtor': 1, 'dtor_at_return': 1, 'cut_loop': 1 if INC_LOOP else 0}),
   ],
-  runs=[
-    dict(id='find', entry='h_find', cls='shape-complete', defs={'L': 3}, unwind=6, unwindset=FIND_SEQ(3), note='any well-formed list of <= 3 ever-inserted nodes; loops of find unwound completely (unwinding assertions)'),
-    dict(id='contains', entry='h_contains', cls='shape-complete', defs={'L': 3}, unwind=6, unwindset=FIND_SEQ(3)),
-    dict(id='find_key', entry='h_find_key', cls='shape-complete', defs={'L': 3}, unwind=6, unwindset=FIND_SEQ(3)),
-    dict(id='begin', entry='h_begin', cls='shape-complete', defs={'L': 3}, unwind=6),
-    dict(id='emplace_or_get', entry='h_emplace_or_get', cls='shape-complete', defs={'L': 3}, unwind=6, unwindset=FIND_SEQ(3) + ['hms_emplace_or_get.0:1']),
-    dict(id='emplace', entry='h_emplace', cls='shape-complete', defs={'L': 3}, unwind=6, unwindset=FIND_SEQ(3) + ['hms_emplace_or_get.0:1']),
-    dict(id='erase', entry='h_erase', cls='shape-complete', defs={'L': 3}, unwind=6, unwindset=FIND_SEQ(3) + ['hms_erase.0:1']),
-    dict(id='erase_it', entry='h_erase_it', cls='shape-complete', defs={'L': 3}, unwind=6, unwindset=FIND_SEQ(3) + ['hms_erase_it.0:2']),
-    dict(id='iter_inc', entry='h_iter_inc', cls='shape-complete', defs={'L': 3}, unwind=6, unwindset=FIND_SEQ(3)),
-    dict(id='find_int', entry='h_find_int', mode='INT', cls='shape-complete', defs={'L': 3}, unwind=6, note='unbounded interference (env.h); for loop and retry label of find cut by invariants FINDLOOP / RETRY; shape L only bounds the list walked by the invariant checker'),
-    dict(id='emplace_int', entry='h_emplace_int', mode='INT', cls='shape-complete', defs={'L': 3}, unwind=6, note='find replaced by its INT contract (proved by find_int); retry loop cut by invariant EMPL'),
-    dict(id='erase_int', entry='h_erase_int', mode='INT', cls='shape-complete', defs={'L': 3}, unwind=6, note='find replaced by its INT contract; retry loop cut by invariant ERASE'),
-    dict(id='erase_it_int', entry='h_erase_it_int', mode='INT', cls='shape-complete', defs={'L': 3}, unwind=6, note='find replaced by its INT contract; mark loop cut by invariant ERIT'),
-    dict(id='iter_inc_int', entry='h_iter_inc_int', mode='INT', cls='shape-complete', defs={'L': 3}, unwind=6, note='find replaced by its INT contract'),
-    dict(id='iter_copy', entry='h_iter_copy', cls='shape-complete', defs={'L': 3}, unwind=6, unwindset=FIND_SEQ(3)),
-  ],
-  loop_obligation={'RETRY': 'hms.find.commit', 'FINDLOOP': 'hms.find.commit', 'EMPL': 'hms.insert.commit', 'ERASE': 'hms.erase.commit', 'ERIT': 'hms.erase.commit'},
-  obligations={},
-  canaries=[],
+  runs=RUNS,
+  loop_obligation={'RETRY': 'hms.find.commit', 'FINDLOOP': 'hms.find.commit', 'EMPL': 'hms.insert.commit', 'ERASE': 'hms.erase.commit', 'ERIT': 'hms.erase.commit', 'INC': 'hms.iter.inc.progress'},
+  obligations={
+    'hms.find.iff_live': dict(deciding=True, text='find(key, info, backoff) returns true iff an unmarked node with that key is reachable from head (any well-formed list, any delete marks, any start position an iterator can hold); then info.cur is that node'),
+    'hms.find.position': dict(deciding=True, text='after find: list still well-formed; *info.prev == info.cur (unmarked); cur is the first node with key >= key of the resulting list (null if none); info.next is cur->next; prev is head or the next field of the guarded, live predecessor save; every marked node met on the way was physically unlinked'),
+    'hms.find.frame': dict(deciding=True, text='find changes nothing but the next field of predecessors of unlinked marked nodes: keys, marks, live nodes, already unlinked nodes and free memory untouched; no allocation, no link, no mark'),
+    'hms.find.retire_once': dict(deciding=True, text='every node find unlinks is retired exactly once, nothing else is retired'),
+    'hms.find.guards': dict(deciding=False, text='guard accounting: after find only info.cur / info.save protect nodes (the local start_guard is released)'),
+    'hms.find.safe': dict(deciding=True, text='find dereferences only nodes protected by one of its guards (or head)'),
+    'hms.find.commit': dict(deciding=True, text="[INT] every successful CAS of find under arbitrary interference is a legal unlink step (predecessor cell unmarked and pointing to a marked node, new value = that node's frozen successor), followed by exactly one retire; loop invariants of the retry loops"),
+    'hms.find.ensures_int': dict(deciding=True, text='[INT] contract of find under arbitrary interference (P1-P7 in harness.c): guarded (prev,save,cur) with key(save) < key <= key(cur), result iff key(cur) == key, (prev,cur) is the pair validated by the last acquire_if_equal, info.next is the value read from cur->next, cur was seen unmarked during the call, a node with this key marked before the call is spliced out'),
+    'hms.find.requires': dict(deciding=False, text='[INT] callers establish the precondition of find (prev is head or the next field of the guarded node save, key(save) < key)'),
+    'hms.contains.iff_live': dict(deciding=True, text='contains(key) is true iff an unmarked node with that key is reachable'),
+    'hms.contains.frame': dict(deciding=True, text='contains leaves the abstract set and all live nodes unchanged (it may only help unlinking marked nodes)'),
+    'hms.contains.guards': dict(deciding=False, text='contains releases all its guards'),
+    'hms.contains.safe': dict(deciding=True, text='contains dereferences only protected nodes'),
+    'hms.find_key.iff_live': dict(deciding=True, text='find(key) returns an iterator to the live node with that key, end() iff there is none'),
+    'hms.find_key.iterator': dict(deciding=True, text='the iterator returned by find(key) satisfies the iterator invariant (prev/save/cur consistent, guarded)'),
+    'hms.find_key.frame': dict(deciding=True, text='find(key) leaves the abstract set unchanged'),
+    'hms.find_key.guards': dict(deciding=False, text='only the returned iterator holds guards afterwards'),
+    'hms.find_key.safe': dict(deciding=True, text='find(key) dereferences only protected nodes'),
+    'hms.insert.iff_absent': dict(deciding=True, text='emplace / emplace_or_get succeed iff the key was absent; then exactly the new node (holding the given key) is added, the list is still sorted and well-formed, every other key keeps its membership and every other node is untouched; on failure the allocated node is deleted exactly once and nothing else changed'),
+    'hms.insert.iterator': dict(deciding=True, text='emplace_or_get returns an iterator to the inserted node, or to the already existing node with that key'),
+    'hms.insert.guards': dict(deciding=False, text='only the returned iterator holds guards afterwards (emplace: none)'),
+    'hms.insert.safe': dict(deciding=True, text='emplace_or_get dereferences only protected nodes and its own unpublished node'),
+    'hms.insert.commit': dict(deciding=True, text="[INT] under arbitrary interference emplace_or_get returns true iff its own CAS linked its node exactly once, by a legal link step (cell unmarked = value validated by find's last acquire_if_equal, new->next already set to that value, keys in order, i.e. the key was absent at that instant); false iff it linked nothing, deleted its node once and holds a guarded node with that key"),
+    'hms.erase.iff_present': dict(deciding=True, text='erase(key) succeeds iff the key was present; then exactly that node is marked (by one mark step) and every other key keeps its membership'),
+    'hms.erase.unlinked_retired': dict(deciding=True, text='when erase(key) returns true the marked node has been spliced out and retired exactly once (by the operation or, [INT], by a helper)'),
+    'hms.erase.second_fails': dict(deciding=True, text='a second erase of the same key on the resulting state fails and changes nothing'),
+    'hms.erase.frame': dict(deciding=True, text='erase(key) does not touch other live nodes, allocates and links nothing'),
+    'hms.erase.guards': dict(deciding=False, text='erase releases all its guards'),
+    'hms.erase.safe': dict(deciding=True, text='erase dereferences only protected nodes'),
+    'hms.erase.commit': dict(deciding=True, text='[INT] under arbitrary interference erase(key) / erase(iterator) perform only legal mark and unlink steps; erase(key) returns true iff its own mark CAS succeeded (exactly one of several racing erases succeeds), on a node with that key, expecting the value it read last from that cell; whoever unlinks retires, once'),
+    'hms.iter.begin.first': dict(deciding=True, text='begin() refers to the first linked node (prev = head, guarded), end() holds nothing'),
+    'hms.iter.begin.frame': dict(deciding=True, text='begin()/end() change nothing'),
+    'hms.iter.begin.guards': dict(deciding=False, text='only the returned iterator holds guards'),
+    'hms.iter.begin.safe': dict(deciding=True, text='begin() dereferences nothing unprotected'),
+    'hms.iter.inc.next_live': dict(deciding=True, text='after ++ from any state another handle can leave behind (cur live / marked but linked / marked and unlinked, predecessor or successor changed) cur is the first node of the resulting list whose key is >= the old key and which is not the old node (end if none); on the re-scan path it is unmarked'),
+    'hms.iter.inc.no_skip': dict(deciding=True, text='no live node with a key greater than the old key is skipped by ++'),
+    'hms.iter.inc.progress': dict(deciding=True, text='++ leaves the node it stood on and never moves backwards: no key is yielded twice unless it was re-inserted ([SEQ] and [INT]; F11)'),
+    'hms.iter.inc.position': dict(deciding=True, text='after ++ the iterator invariant holds again (prev is head or the next field of the guarded save, key(save) < key(cur); [SEQ] *prev == cur)'),
+    'hms.iter.inc.frame': dict(deciding=True, text='++ changes nothing but helping to unlink marked nodes'),
+    'hms.iter.inc.guards': dict(deciding=False, text="after ++ only the iterator's two guards protect nodes"),
+    'hms.iter.inc.safe': dict(deciding=True, text="++ dereferences only nodes protected by the iterator's guards: it never touches reclaimed memory"),
+    'hms.iter.erase.exact': dict(deciding=True, text='erase(iterator) marks exactly the referenced node (once; not at all if another handle already marked it) and removes exactly its key from the abstract set'),
+    'hms.iter.erase.unlinked_retired': dict(deciding=True, text='when erase(iterator) returns the node is spliced out, and retired exactly once if it was still linked'),
+    'hms.iter.erase.next': dict(deciding=True, text='erase(iterator) returns a valid iterator to the first following element of the resulting list (no live element skipped, never the erased node)'),
+    'hms.iter.erase.frame': dict(deciding=True, text='erase(iterator) does not touch other live nodes'),
+    'hms.iter.erase.guards': dict(deciding=False, text="after erase(iterator) only the argument's original and the returned iterator hold guards"),
+    'hms.iter.erase.safe': dict(deciding=True, text='erase(iterator) dereferences only protected nodes'),
+    'hms.iter.copy.independent': dict(deciding=True, text='copies / moved iterators are independently protected: advancing one leaves the other dereferenceable and well-formed'),
+  },
+  canaries=['find.true', 'find.false_end', 'find.false_greater', 'find.unlinked_two', 'find.restart_from_head', 'find.mid_start', 'find.start_unlinked', 'contains.true', 'contains.false', 'contains.helped', 'find_key.found', 'find_key.end', 'begin.empty', 'begin.nonempty', 'insert.true', 'insert.false', 'insert.at_head', 'insert.at_tail', 'insert.helped', 'emplace.true', 'emplace.false', 'erase.true', 'erase.false', 'erase.second_after_true', 'erase.helped', 'inc.fast', 'inc.fast_to_marked_successor', 'inc.fast_to_end', 'inc.cur_marked_linked', 'inc.cur_unlinked', 'inc.key_reinserted', 'inc.save_marked', 'inc.pred_changed', 'erase_it.direct', 'erase_it.refind', 'erase_it.cur_marked_linked', 'erase_it.cur_unlinked', 'erase_it.to_end', 'erase_it.to_marked_successor', 'copy.advanced', 'find_int.true', 'find_int.false_end', 'find_int.false_greater', 'insert_int.true', 'insert_int.false', 'erase_int.unlinked_by_helper', 'erase_int.unlinked_self', 'erase_int.false', 'erase_it_int.direct', 'erase_it_int.refind', 'erase_it_int.marked_by_other', 'inc_int.fast', 'inc_int.slow', 'inc_int.end'],
 )
+# development aid for mutation testing only: let mutants that change a rule count reach the obligations instead of stopping at 'extraction broke'
+if os.environ.get('HMS_NO_MUSTFIRE'):
+    for _s in UNIT['sources']: _s['must_fire'] = {}
